@@ -48,6 +48,9 @@ var commands = map[string]command{
 	"roundtrip-replay":    roundtripReplay,
 	"constructors-replay": constructorsReplay,
 	"codec-replay":        codecReplay,
+	"parser-replay":       parserReplay,
+	"parser-trace":        parserTrace,
+	"selfcert-replay":     selfcertReplay,
 }
 
 func main() {
